@@ -1,9 +1,17 @@
 import AvroModel.Impl.Derive
+import AvroModel.Lemmas.Derive
 /-
 Names of the named Avro types a derived schema defines (`Impl/Derive.lean`): every record / enum /
 fixed node the builder creates has an *origin* (the lookup key it is registered under and its role:
 the type itself, an owned sub-node, …); the builder creates each origin at most once; the name is
 a function of the origin.  Used by `Theorems/C20names.lean`.
+
+Injectivity of the name assignment is only needed (and only assumed, `NameInjOn`) for origins whose
+owner is a lookup key the build REGISTERS: every comparison the proof makes is between two origins
+whose owners are in `already_built_types` of a builder state reached during the run, and `built`
+only grows (`Lemmas/Derive.lean`, `postAll`), so both are registered in the final state
+(`builtKeys`).  The hash of a key enters a name only for keys of generic records
+(`genericRecordKeys`), so the conditions on `hash` (`TextWfOn`) are about those finitely many keys.
 -/
 namespace Avro.Theorems
 open Avro Avro.Impl Avro.Impl.Derive
@@ -216,9 +224,18 @@ inductive Named (P : Prog) (hash : Key → String) : Origin → String → Prop
       v.field = some f → safeField f = false →
       Named P hash (.var id v.ident) (fqOf (ownedName d (.newtypeVariant v.ident) ""))
 
-/-- The name assignment is injective. -/
+/-- The name assignment is injective (on ALL conceivable origins: for a program with a generic
+    record this needs `hash` injective on all keys — see `NameInjOn`). -/
 def NameInj (P : Prog) (hash : Key → String) : Prop :=
   ∀ o o' nm, Named P hash o nm → Named P hash o' nm → o = o'
+
+/-- The name assignment is injective on the origins whose owner (a lookup key) satisfies `K`. -/
+def NameInjOn (P : Prog) (hash : Key → String) (K : Key → Prop) : Prop :=
+  ∀ o o' nm, Named P hash o nm → Named P hash o' nm → K o.owner → K o'.owner → o = o'
+
+theorem NameInj.on {P : Prog} {hash : Key → String} (h : NameInj P hash) (K : Key → Prop) :
+    NameInjOn P hash K :=
+  fun o o' nm a b _ _ => h o o' nm a b
 
 /-- A type on which a logical-type attribute may sit: the duplicate built for it has no owned
     sub-nodes (its own top node is the one that gets renamed). -/
@@ -324,7 +341,39 @@ structure Ext (P : Prog) (hash : Key → String) (A : String → Prop) (s s' : B
   nodup : (dn s.nodes.toList ++ dn ext).Nodup
   src : ∀ nm ∈ dn ext, NewOwned P hash s s' nm ∨ A nm
 
-variable {P : Prog} {hash : Key → String}
+variable {P : Prog} {hash : Key → String} {K : Key → Prop}
+
+/-- Registrations survive every builder call (`Lemmas/Derive.lean`). -/
+theorem reg_of_ext {s s' : BState} (h : Avro.Impl.Derive.Ext s s') {k : Key} (hr : Reg s k) :
+    Reg s' k := by
+  unfold Reg at hr ⊢
+  cases hl : s.built.lookup k with
+  | none => simp [hl] at hr
+  | some i => simp [h.built k i hl]
+
+theorem reg_mono_as {fuel : Nat} {t : Ty} {s s' : BState} {u : Unit}
+    (h : appendSchema P hash fuel t s = some (u, s')) : ∀ k, Reg s k → Reg s' k :=
+  fun _ => reg_of_ext ((postAll P hash fuel).1 t s u s' h).ext
+
+theorem reg_mono_fob {fuel : Nat} {t : Ty} {s s' : BState} {i : Nat}
+    (h : findOrBuild P hash fuel t s = some (i, s')) : ∀ k, Reg s k → Reg s' k :=
+  fun _ => reg_of_ext ((postAll P hash fuel).2.1 t s i s' h).ext
+
+theorem reg_mono_rf {fuel : Nat} {d : Decl} {args : List Ty} {tn : String} {fs : List Field}
+    {s s' : BState} {r : List (String × Nat)}
+    (h : recordFields P hash fuel d args tn fs s = some (r, s')) : ∀ k, Reg s k → Reg s' k :=
+  fun _ => reg_of_ext ((postAll P hash fuel).2.2.2.1 d args tn fs s r s' h).ext
+
+theorem reg_mono_uv {fuel : Nat} {d : Decl} {args : List Ty} {vs : List Variant}
+    {s s' : BState} {r : List Nat}
+    (h : unionVariants P hash fuel d args vs s = some (r, s')) : ∀ k, Reg s k → Reg s' k :=
+  fun _ => reg_of_ext ((postAll P hash fuel).2.2.2.2 d args vs s r s' h).ext
+
+/-- `setNode` does not touch `already_built_types`. -/
+theorem hK_of_setNode {i : Nat} {node : RawNode} {s2 s' : BState}
+    (h : setNode i node s2 = some ((), s')) (hK : ∀ k, Reg s' k → K k) : ∀ k, Reg s2 k → K k := by
+  obtain ⟨_, rfl⟩ := setNode_some h
+  exact hK
 
 theorem Inv.congr {s s0 : BState} (h : Inv P hash s) (hn : dn s0.nodes.toList = dn s.nodes.toList)
     (hb : s0.built = s.built) : Inv P hash s0 := by
@@ -389,35 +438,37 @@ theorem Ext.inv {A : String → Prop} {s s' : BState} {ext : List RawNode} (hi :
     · obtain ⟨o, ho, hr⟩ := hA nm hA'
       exact ⟨o, ho, h.mono _ hr⟩
 
-theorem Allowed.not_new (hI : NameInj P hash) {s s' : BState} {nm : String}
+theorem Allowed.not_new (hI : NameInjOn P hash K) {s s' : BState} {nm : String}
+    (hK : ∀ k, Reg s' k → K k) (hm : ∀ k, Reg s k → Reg s' k)
     (h : Allowed P hash s nm) (hnew : NewOwned P hash s s' nm) : False := by
   obtain ⟨_, o, ho, hr⟩ := h
-  obtain ⟨o', ho', _, hr'⟩ := hnew
-  have := hI o o' nm ho ho'
+  obtain ⟨o', ho', hr1, hr'⟩ := hnew
+  have := hI o o' nm ho ho' (hK _ (hm _ hr)) (hK _ hr1)
   subst this
   exact hr' hr
 
-theorem Allowed.step (hI : NameInj P hash) {A : String → Prop} {s s' : BState} {ext : List RawNode}
-    {nm : String} (h : Allowed P hash s nm) (hn : s'.nodes.toList = s.nodes.toList ++ ext)
+theorem Allowed.step (hI : NameInjOn P hash K) {A : String → Prop} {s s' : BState} {ext : List RawNode}
+    {nm : String} (hK : ∀ k, Reg s' k → K k)
+    (h : Allowed P hash s nm) (hn : s'.nodes.toList = s.nodes.toList ++ ext)
     (he : Ext P hash A s s' ext) (hA : ¬ A nm) : Allowed P hash s' nm := by
   refine ⟨?_, ?_⟩
   · rw [hn, dn_append, List.mem_append]
     rintro (hm | hm)
     · exact h.1 hm
     · rcases he.src nm hm with hnew | hA'
-      · exact h.not_new hI hnew
+      · exact h.not_new hI hK he.mono hnew
       · exact hA hA'
   · obtain ⟨_, o, ho, hr⟩ := h
     exact ⟨o, ho, he.mono _ hr⟩
 
-theorem Ext.cons_top (hI : NameInj P hash) {A : String → Prop} {s s' : BState} {rest : List RawNode}
-    {top : RawNode} {nm0 : String} (h : Ext P hash A s s' rest) (ha : Allowed P hash s nm0)
+theorem Ext.cons_top (hI : NameInjOn P hash K) {A : String → Prop} {s s' : BState} {rest : List RawNode}
+    {top : RawNode} {nm0 : String} (hK : ∀ k, Reg s' k → K k) (h : Ext P hash A s s' rest) (ha : Allowed P hash s nm0)
     (ht : ∀ nm, nodeName top = some nm → nm = nm0) (hA : ¬ A nm0) :
     Ext P hash (fun nm => A nm ∨ nm = nm0) s s' (top :: rest) := by
   have hnot : nm0 ∉ dn rest := by
     intro hm
     rcases h.src nm0 hm with hnew | hA'
-    · exact ha.not_new hI hnew
+    · exact ha.not_new hI hK h.mono hnew
     · exact hA hA'
   refine ⟨h.mono, ?_, ?_⟩
   · rw [dn_cons]
@@ -742,26 +793,31 @@ def TopOK (P : Prog) (hash : Key → String) (t : Ty) (top : RawNode) : Prop :=
   ∀ nm, nodeName top = some nm → ∀ n k0, lookupKey P n t = some k0 →
     ∃ o, Named P hash o nm ∧ o.owner = k0 ∧ o.isSub = false
 
-def Compat (P : Prog) (hash : Key → String) (t : Ty) (A : String → Prop) : Prop :=
-  ∀ n k0 o nm, lookupKey P n t = some k0 → Named P hash o nm → o.owner = k0 → o.isSub = true → A nm
+def Compat (P : Prog) (hash : Key → String) (K : Key → Prop) (t : Ty) (A : String → Prop) : Prop :=
+  ∀ n k0 o nm, lookupKey P n t = some k0 → Named P hash o nm → o.owner = k0 → o.isSub = true →
+    A nm ∧ K k0
 
-def AppendSpec (P : Prog) (hash : Key → String) (fuel : Nat) : Prop :=
+/- In the five specifications `K` is a set of lookup keys containing every key registered in the
+   OUTPUT state of the call (`∀ k, Reg s' k → K k`); the name assignment is only assumed injective
+   on origins owned by keys in `K`. -/
+
+def AppendSpec (P : Prog) (hash : Key → String) (K : Key → Prop) (fuel : Nat) : Prop :=
   ∀ (t : Ty) (s s' : BState) (A : String → Prop), Inv P hash s → (∀ nm, A nm → Allowed P hash s nm) →
-    Compat P hash t A → appendSchema P hash fuel t s = some ((), s') →
+    Compat P hash K t A → appendSchema P hash fuel t s = some ((), s') → (∀ k, Reg s' k → K k) →
     ∃ top rest, s'.nodes.toList = s.nodes.toList ++ top :: rest ∧ Ext P hash A s s' rest ∧
       TopOK P hash t top
 
 def NoA : String → Prop := fun _ => False
 
-def FBSpec (P : Prog) (hash : Key → String) (fuel : Nat) : Prop :=
+def FBSpec (P : Prog) (hash : Key → String) (K : Key → Prop) (fuel : Nat) : Prop :=
   ∀ (t : Ty) (s : BState) (idx : Nat) (s' : BState), Inv P hash s →
-    findOrBuild P hash fuel t s = some (idx, s') →
+    findOrBuild P hash fuel t s = some (idx, s') → (∀ k, Reg s' k → K k) →
     ∃ ext, s'.nodes.toList = s.nodes.toList ++ ext ∧ Ext P hash NoA s s' ext
 
-def FISpec (P : Prog) (hash : Key → String) (fuel : Nat) : Prop :=
+def FISpec (P : Prog) (hash : Key → String) (K : Key → Prop) (fuel : Nat) : Prop :=
   ∀ (id : Nat) (d : Decl) (args : List Ty) (f : Field) (kind : FieldKind) (rtn : String)
     (s : BState) (k : Nat) (s' : BState), Inv P hash s → P[id]? = some d → f ∈ d.body.lookupFields →
-    fieldInst P hash fuel d args f kind rtn s = some (k, s') →
+    fieldInst P hash fuel d args f kind rtn s = some (k, s') → (∀ k, Reg s' k → K k) →
     (¬ creates f kind ∧ ∃ ext, s'.nodes.toList = s.nodes.toList ++ ext ∧ Ext P hash NoA s s' ext) ∨
     (creates f kind ∧ k = s.nodes.size ∧ ∃ top rest,
       s'.nodes.toList = s.nodes.toList ++ top :: rest ∧ Ext P hash NoA s s' rest ∧
@@ -770,28 +826,30 @@ def FISpec (P : Prog) (hash : Key → String) (fuel : Nat) : Prop :=
 def subNm (d : Decl) (hash : Key → String) (k : Key) (f : Field) : String :=
   fqOf (recName d hash k ++ "." ++ f.name)
 
-def RFSpec (P : Prog) (hash : Key → String) (fuel : Nat) : Prop :=
+def RFSpec (P : Prog) (hash : Key → String) (K : Key → Prop) (fuel : Nat) : Prop :=
   ∀ (id : Nat) (d : Decl) (fs0 : List Field) (args : List Ty) (k : Key) (fs : List Field)
     (s : BState) (r : List (String × Nat)) (s' : BState), Inv P hash s → P[id]? = some d →
     d.body = .record fs0 → (∀ f ∈ fs, f ∈ fs0) → (fs.map (·.name)).Nodup → KeyOf d id k →
     (∀ f ∈ fs, f.attr.logical.isSome = true → Allowed P hash s (subNm d hash k f)) →
-    recordFields P hash fuel d args (recName d hash k) fs s = some (r, s') →
+    (∀ f ∈ fs, f.attr.logical.isSome = true → K k) →
+    recordFields P hash fuel d args (recName d hash k) fs s = some (r, s') → (∀ k, Reg s' k → K k) →
     ∃ ext, s'.nodes.toList = s.nodes.toList ++ ext ∧
       Ext P hash (fun nm => ∃ f ∈ fs, f.attr.logical.isSome = true ∧ nm = subNm d hash k f) s s' ext
 
 def varNm (d : Decl) (v : Variant) : String := fqOf (ownedName d (.newtypeVariant v.ident) "")
 
-def UVSpec (P : Prog) (hash : Key → String) (fuel : Nat) : Prop :=
+def UVSpec (P : Prog) (hash : Key → String) (K : Key → Prop) (fuel : Nat) : Prop :=
   ∀ (id : Nat) (d : Decl) (vs0 : List Variant) (args : List Ty) (vs : List Variant)
     (s : BState) (r : List Nat) (s' : BState), Inv P hash s → P[id]? = some d →
     d.body = .union vs0 → (∀ v ∈ vs, v ∈ vs0) → (vs.map (·.ident)).Nodup →
     (∀ v ∈ vs, ∀ f, v.field = some f → safeField f = false → Allowed P hash s (varNm d v)) →
-    unionVariants P hash fuel d args vs s = some (r, s') →
+    (∀ v ∈ vs, ∀ f, v.field = some f → safeField f = false → K [.self id]) →
+    unionVariants P hash fuel d args vs s = some (r, s') → (∀ k, Reg s' k → K k) →
     ∃ ext, s'.nodes.toList = s.nodes.toList ++ ext ∧
       Ext P hash (fun nm => ∃ v ∈ vs, ∃ f, v.field = some f ∧ safeField f = false ∧ nm = varNm d v)
         s s' ext
 
-variable {P : Prog} {hash : Key → String}
+variable {P : Prog} {hash : Key → String} {K : Key → Prop}
 
 theorem Inv.resv {s : BState} (h : Inv P hash s) : Inv P hash (resv s) := h.congr (dn_resv s) rfl
 
@@ -823,17 +881,18 @@ theorem fill_post {A : String → Prop} {t : Ty} {s s2 s' : BState} {rest : List
 theorem topOK_unnamed {t : Ty} {node : RawNode} (h : nodeName node = none) : TopOK P hash t node := by
   intro nm hnm; rw [h] at hnm; cases hnm
 
-theorem fresh_of_unreg (hI : NameInj P hash) {s : BState} (hi : Inv P hash s) {key : Key} {o : Origin}
-    {nm : String} (hr : ¬ Reg s key) (ho : Named P hash o nm) (hk : o.owner = key) :
+theorem fresh_of_unreg (hI : NameInjOn P hash K) {s : BState} (hi : Inv P hash s)
+    (hKs : ∀ k, Reg s k → K k) {key : Key} {o : Origin}
+    {nm : String} (hKk : K key) (hr : ¬ Reg s key) (ho : Named P hash o nm) (hk : o.owner = key) :
     nm ∉ dn s.nodes.toList := by
   intro hm
   obtain ⟨o', ho', hr'⟩ := hi.owned nm hm
-  have := hI o o' nm ho ho'
+  have := hI o o' nm ho ho' (by rw [hk]; exact hKk) (hKs _ hr')
   subst this
   exact hr (hk ▸ hr')
 
 theorem compat_of_dupSafe {c : Ty} (hs : dupSafe P c = true) (args : List Ty) :
-    Compat P hash (subst args c) NoA := by
+    Compat P hash K (subst args c) NoA := by
   intro n k0 o nm hk hnamed hown hsub
   have hid := keyId_dupSafe P hk hs
   cases hnamed with
@@ -865,11 +924,11 @@ theorem compat_of_dupSafe {c : Ty} (hs : dupSafe P c = true) (args : List Ty) :
       simp [hf, hu] at this
     | _ => simp [keyId] at hid
 
-variable {P : Prog} {hash : Key → String}
+variable {P : Prog} {hash : Key → String} {K : Key → Prop}
 
-theorem fob_step (hI : NameInj P hash) {fuel : Nat} (ihA : AppendSpec P hash fuel) :
-    FBSpec P hash (fuel + 1) := by
-  intro t s idx s' hi h
+theorem fob_step (hI : NameInjOn P hash K) {fuel : Nat} (ihA : AppendSpec P hash K fuel) :
+    FBSpec P hash K (fuel + 1) := by
+  intro t s idx s' hi h hK
   rw [fob_succ] at h
   simp only at h
   cases hk : lookupKey P (fuel + 1) t with
@@ -896,14 +955,17 @@ theorem fob_step (hI : NameInj P hash) {fuel : Nat} (ihA : AppendSpec P hash fue
             fun k hk' => (reg_cons s key _ k).2 (.inr hk')
           have hi0 : Inv P hash { s with built := (key, s.nodes.size) :: s.built } :=
             ⟨hi.nodup, fun nm hm => let ⟨o, ho, hr⟩ := hi.owned nm hm; ⟨o, ho, hreg0 _ hr⟩⟩
+          have hmono := reg_mono_as ha
+          have hKkey : K key := hK _ (hmono _ ((reg_cons s key _ _).2 (.inl rfl)))
+          have hKs : ∀ k, Reg s k → K k := fun k hk' => hK k (hmono k (hreg0 k hk'))
           let A : String → Prop := fun nm => ∃ o, Named P hash o nm ∧ o.owner = key ∧ o.isSub = true
           have hA : ∀ nm, A nm → Allowed P hash { s with built := (key, s.nodes.size) :: s.built } nm := by
             rintro nm ⟨o, ho, hok, _⟩
-            exact ⟨fresh_of_unreg hI hi hnr ho hok, o, ho, (reg_cons s key _ _).2 (.inl hok)⟩
-          have hC : Compat P hash t A := by
+            exact ⟨fresh_of_unreg hI hi hKs hKkey hnr ho hok, o, ho, (reg_cons s key _ _).2 (.inl hok)⟩
+          have hC : Compat P hash K t A := by
             intro n k0 o nm hk0 ho hown hsub
-            exact ⟨o, ho, hown.trans (lk_det P hk0 hk), hsub⟩
-          obtain ⟨top, rest, hn, he, htop⟩ := ihA t _ s1 A hi0 hA hC ha
+            exact ⟨⟨o, ho, hown.trans (lk_det P hk0 hk), hsub⟩, by rw [lk_det P hk0 hk]; exact hKkey⟩
+          obtain ⟨top, rest, hn, he, htop⟩ := ihA t _ s1 A hi0 hA hC ha hK
           have hkey1 : Reg s1 key := he.mono _ ((reg_cons s key _ _).2 (.inl rfl))
           refine ⟨top :: rest, hn, fun k hk' => he.mono _ (hreg0 _ hk'), ?_, ?_⟩
           · rw [dn_cons]
@@ -911,13 +973,13 @@ theorem fob_step (hI : NameInj P hash) {fuel : Nat} (ihA : AppendSpec P hash fue
             | none => simpa using he.nodup
             | some nm =>
               obtain ⟨o, ho, hok, hsub⟩ := htop nm hx _ _ hk
-              refine nodup_insert_mid he.nodup (fresh_of_unreg hI hi hnr ho hok) ?_
+              refine nodup_insert_mid he.nodup (fresh_of_unreg hI hi hKs hKkey hnr ho hok) ?_
               intro hm
-              rcases he.src nm hm with ⟨o', ho', _, hr'⟩ | ⟨o', ho', _, hsub'⟩
-              · have := hI o o' nm ho ho'
+              rcases he.src nm hm with ⟨o', ho', hr1', hr'⟩ | ⟨o', ho', hok', hsub'⟩
+              · have := hI o o' nm ho ho' (by rw [hok]; exact hKkey) (hK _ hr1')
                 subst this
                 exact hr' ((reg_cons s key _ _).2 (.inl hok))
-              · have := hI o o' nm ho ho'
+              · have := hI o o' nm ho ho' (by rw [hok]; exact hKkey) (by rw [hok']; exact hKkey)
                 subst this
                 rw [hsub] at hsub'; cases hsub'
           · intro nm hm
@@ -935,9 +997,9 @@ theorem fob_step (hI : NameInj P hash) {fuel : Nat} (ihA : AppendSpec P hash fue
               · exact .inl ⟨o', ho', hok ▸ hkey1, hok ▸ hnr⟩
         · simp [hlt] at h
 
-theorem fi_step (hW : StructWf P) {fuel : Nat} (ihA : AppendSpec P hash fuel)
-    (ihF : FBSpec P hash fuel) : FISpec P hash (fuel + 1) := by
-  intro id d args f kind rtn s k s' hi hP hf h
+theorem fi_step (hW : StructWf P) {fuel : Nat} (ihA : AppendSpec P hash K fuel)
+    (ihF : FBSpec P hash K fuel) : FISpec P hash K (fuel + 1) := by
+  intro id d args f kind rtn s k s' hi hP hf h hK
   rw [fi_succ] at h
   cases hl : logicalOf f with
   | none =>
@@ -956,7 +1018,7 @@ theorem fi_step (hW : StructWf P) {fuel : Nat} (ihA : AppendSpec P hash fuel)
         rintro (h1 | ⟨h1, n, h2⟩)
         · simp [hlog] at h1
         · exact hne n h1 h2
-      exact .inl ⟨hnc, ihF _ _ _ _ hi h⟩
+      exact .inl ⟨hnc, ihF _ _ _ _ hi h hK⟩
   | some lt =>
     simp only [hl] at h
     have hlog := logicalOf_some hl
@@ -966,10 +1028,17 @@ theorem fi_step (hW : StructWf P) {fuel : Nat} (ihA : AppendSpec P hash fuel)
     | some r =>
       obtain ⟨u, s1⟩ := r
       simp only [ha] at h
-      obtain ⟨top, rest, hn, he, _⟩ :=
-        ihA _ s s1 NoA hi (fun _ h => h.elim) (compat_of_dupSafe hds args) ha
       by_cases hlt : s1.nodes.size > s.nodes.size
       · simp only [hlt, if_true] at h
+        have hK1 : ∀ k, Reg s1 k → K k := by
+          cases hg : s1.nodes[s.nodes.size]? with
+          | none => simp [hg] at h
+          | some node =>
+            simp only [hg, Option.some.injEq, Prod.mk.injEq] at h
+            obtain ⟨_, rfl⟩ := h
+            exact hK
+        obtain ⟨top, rest, hn, he, _⟩ :=
+          ihA _ s s1 NoA hi (fun _ h => h.elim) (compat_of_dupSafe hds args) ha hK1
         have hget : s1.nodes[s.nodes.size]? = some top := by
           rw [← Array.getElem?_toList, hn]
           have : s.nodes.size = s.nodes.toList.length := by simp
@@ -989,10 +1058,10 @@ theorem fi_step (hW : StructWf P) {fuel : Nat} (ihA : AppendSpec P hash fuel)
           | some x => simp [hx] at hnm; exact hnm.symm
       · simp [hlt] at h
 
-variable {P : Prog} {hash : Key → String}
+variable {P : Prog} {hash : Key → String} {K : Key → Prop}
 
-theorem rf_zero_spec : RFSpec P hash 0 := by
-  intro id d fs0 args k fs s r s' hi hP hb hsub hnd hko hal h
+theorem rf_zero_spec : RFSpec P hash K 0 := by
+  intro id d fs0 args k fs s r s' hi hP hb hsub hnd hko hal hKk h hK
   cases fs with
   | nil =>
     rw [rf_nil] at h
@@ -1001,9 +1070,9 @@ theorem rf_zero_spec : RFSpec P hash 0 := by
     exact ⟨[], by simp, Ext.refl hi⟩
   | cons f rest => rw [rf_zero] at h; cases h
 
-theorem rf_step (hI : NameInj P hash) {fuel : Nat} (ihI : FISpec P hash fuel)
-    (ihR : RFSpec P hash fuel) : RFSpec P hash (fuel + 1) := by
-  intro id d fs0 args k fs s r s' hi hP hb hsub hnd hko hal h
+theorem rf_step (hI : NameInjOn P hash K) {fuel : Nat} (ihI : FISpec P hash K fuel)
+    (ihR : RFSpec P hash K fuel) : RFSpec P hash K (fuel + 1) := by
+  intro id d fs0 args k fs s r s' hi hP hb hsub hnd hko hal hKk h hK
   cases fs with
   | nil =>
     rw [rf_nil] at h
@@ -1026,10 +1095,11 @@ theorem rf_step (hI : NameInj P hash) {fuel : Nat} (ihI : FISpec P hash fuel)
         obtain ⟨_, rfl⟩ := h
         have hf0 : f ∈ fs0 := hsub f (List.mem_cons_self ..)
         have hfl : f ∈ d.body.lookupFields := by rw [hb]; exact hf0
+        have hK1 : ∀ k, Reg s1 k → K k := fun k hk => hK k (reg_mono_rf h2 k hk)
         -- the first field
         let A1 : String → Prop := fun nm => f.attr.logical.isSome = true ∧ nm = subNm d hash k f
         have step1 : ∃ ext1, s1.nodes.toList = s.nodes.toList ++ ext1 ∧ Ext P hash A1 s s1 ext1 := by
-          rcases ihI id d args f _ _ s k1 s1 hi hP hfl h1 with ⟨_, ext, hn, he⟩ | ⟨hc, _, top, rest1, hn, he, ht⟩
+          rcases ihI id d args f _ _ s k1 s1 hi hP hfl h1 hK1 with ⟨_, ext, hn, he⟩ | ⟨hc, _, top, rest1, hn, he, ht⟩
           · exact ⟨ext, hn, he.weaken (fun _ h => h.elim)⟩
           · have hlog : f.attr.logical.isSome = true := by
               rcases hc with hc | ⟨hc, _⟩
@@ -1037,7 +1107,7 @@ theorem rf_step (hI : NameInj P hash) {fuel : Nat} (ihI : FISpec P hash fuel)
               · cases hc
             have hal1 := hal f (List.mem_cons_self ..) hlog
             rw [ownedName_struct] at ht
-            refine ⟨top :: rest1, hn, (he.cons_top hI hal1 ht (fun h => h)).weaken ?_⟩
+            refine ⟨top :: rest1, hn, (he.cons_top hI hK1 hal1 ht (fun h => h)).weaken ?_⟩
             rintro nm (h | h)
             · exact h.elim
             · exact ⟨hlog, h⟩
@@ -1050,24 +1120,26 @@ theorem rf_step (hI : NameInj P hash) {fuel : Nat} (ihI : FISpec P hash fuel)
           simpa using hnd
         have hal' : ∀ g ∈ rest, g.attr.logical.isSome = true → Allowed P hash s1 (subNm d hash k g) := by
           intro g hg hgl
-          refine (hal g (List.mem_cons_of_mem _ hg) hgl).step hI hn1 he1 ?_
+          refine (hal g (List.mem_cons_of_mem _ hg) hgl).step hI hK1 hn1 he1 ?_
           rintro ⟨hlog, heq⟩
+          have hKk' : K k := hKk f (List.mem_cons_self ..) hlog
           have hn1 := Named.sub (hash := hash) hP hb hko hf0 hlog
           have hn2 := Named.sub (hash := hash) hP hb hko (hsub g (List.mem_cons_of_mem _ hg)) hgl
           have hn1' : Named P hash (.sub k f.name) (subNm d hash k g) := by rw [heq]; exact hn1
-          have := hI _ _ _ hn2 hn1'
+          have := hI _ _ _ hn2 hn1' hKk' hKk'
           simp only [Origin.sub.injEq, true_and] at this
           exact hnd'.1 (List.mem_map.2 ⟨g, hg, this⟩)
         obtain ⟨ext2, hn2, he2⟩ := ihR id d fs0 args k rest s1 fs2 s2 hi1 hP hb
-          (fun g hg => hsub g (List.mem_cons_of_mem _ hg)) hnd'.2 hko hal' h2
+          (fun g hg => hsub g (List.mem_cons_of_mem _ hg)) hnd'.2 hko hal'
+          (fun g hg => hKk g (List.mem_cons_of_mem _ hg)) h2 hK
         refine ⟨ext1 ++ ext2, by rw [hn2, hn1, List.append_assoc], Ext.trans hn1 (he1.weaken ?_) (he2.weaken ?_)⟩
         · rintro nm ⟨hlog, rfl⟩
           exact ⟨f, List.mem_cons_self .., hlog, rfl⟩
         · rintro nm ⟨g, hg, hgl, rfl⟩
           exact ⟨g, List.mem_cons_of_mem _ hg, hgl, rfl⟩
 
-theorem uv_zero_spec : UVSpec P hash 0 := by
-  intro id d vs0 args vs s r s' hi hP hb hsub hnd hal h
+theorem uv_zero_spec : UVSpec P hash K 0 := by
+  intro id d vs0 args vs s r s' hi hP hb hsub hnd hal hKid h hK
   cases vs with
   | nil =>
     rw [uv_nil] at h
@@ -1076,9 +1148,9 @@ theorem uv_zero_spec : UVSpec P hash 0 := by
     exact ⟨[], by simp, Ext.refl hi⟩
   | cons f rest => rw [uv_zero] at h; cases h
 
-theorem uv_step (hW : StructWf P) (hI : NameInj P hash) {fuel : Nat} (ihF : FBSpec P hash fuel)
-    (ihI : FISpec P hash fuel) (ihU : UVSpec P hash fuel) : UVSpec P hash (fuel + 1) := by
-  intro id d vs0 args vs s r s' hi hP hb hsub hnd hal h
+theorem uv_step (hW : StructWf P) (hI : NameInjOn P hash K) {fuel : Nat} (ihF : FBSpec P hash K fuel)
+    (ihI : FISpec P hash K fuel) (ihU : UVSpec P hash K fuel) : UVSpec P hash K (fuel + 1) := by
+  intro id d vs0 args vs s r s' hi hP hb hsub hnd hal hKid h hK
   cases vs with
   | nil =>
     rw [uv_nil] at h
@@ -1098,6 +1170,7 @@ theorem uv_step (hW : StructWf P) (hI : NameInj P hash) {fuel : Nat} (ihF : FBSp
         simp only [h2, Option.some.injEq, Prod.mk.injEq] at h
         obtain ⟨_, rfl⟩ := h
         have hv0 : v ∈ vs0 := hsub v (List.mem_cons_self ..)
+        have hK1 : ∀ k, Reg s1 k → K k := fun k hk => hK k (reg_mono_uv h2 k hk)
         have hnp : ∀ w ∈ vs0, ∀ g, w.field = some g → safeField g = false → d.nparams = 0 := by
           intro w hw g hg hu
           refine Classical.byContradiction fun hn => ?_
@@ -1108,17 +1181,17 @@ theorem uv_step (hW : StructWf P) (hI : NameInj P hash) {fuel : Nat} (ihF : FBSp
           cases hvf : v.field with
           | none =>
             simp only [hvf] at h1
-            obtain ⟨ext, hn, he⟩ := ihF _ _ _ _ hi h1
+            obtain ⟨ext, hn, he⟩ := ihF _ _ _ _ hi h1 hK1
             exact ⟨ext, hn, he.weaken (fun _ h => h.elim)⟩
           | some f =>
             simp only [hvf] at h1
             have hfl : f ∈ d.body.lookupFields := by
               rw [hb]; exact List.mem_filterMap.2 ⟨v, hv0, hvf⟩
-            rcases ihI id d args f _ _ s k1 s1 hi hP hfl h1 with ⟨_, ext, hn, he⟩ | ⟨hc, _, top, rest1, hn, he, ht⟩
+            rcases ihI id d args f _ _ s k1 s1 hi hP hfl h1 hK1 with ⟨_, ext, hn, he⟩ | ⟨hc, _, top, rest1, hn, he, ht⟩
             · exact ⟨ext, hn, he.weaken (fun _ h => h.elim)⟩
             · have hu := creates_unsafe hc
               have hal1 := hal v (List.mem_cons_self ..) f hvf hu
-              refine ⟨top :: rest1, hn, (he.cons_top hI hal1 ht (fun h => h)).weaken ?_⟩
+              refine ⟨top :: rest1, hn, (he.cons_top hI hK1 hal1 ht (fun h => h)).weaken ?_⟩
               rintro nm (h | h)
               · exact h.elim
               · exact ⟨f, hvf, hu, h⟩
@@ -1131,35 +1204,38 @@ theorem uv_step (hW : StructWf P) (hI : NameInj P hash) {fuel : Nat} (ihF : FBSp
         have hal' : ∀ w ∈ rest, ∀ g, w.field = some g → safeField g = false →
             Allowed P hash s1 (varNm d w) := by
           intro w hw g hg hgu
-          refine (hal w (List.mem_cons_of_mem _ hw) g hg hgu).step hI hn1 he1 ?_
+          refine (hal w (List.mem_cons_of_mem _ hw) g hg hgu).step hI hK1 hn1 he1 ?_
           rintro ⟨f, hvf, hu, heq⟩
+          have hKv : K [.self id] := hKid v (List.mem_cons_self ..) f hvf hu
           have hw0 := hsub w (List.mem_cons_of_mem _ hw)
           have hn1 := Named.var (hash := hash) hP hb (hnp v hv0 f hvf hu) hv0 hvf hu
           have hn2 := Named.var (hash := hash) hP hb (hnp v hv0 f hvf hu) hw0 hg hgu
           have hn1' : Named P hash (.var id v.ident) (varNm d w) := by rw [heq]; exact hn1
-          have := hI _ _ _ hn2 hn1'
+          have := hI _ _ _ hn2 hn1' hKv hKv
           simp only [Origin.var.injEq, true_and] at this
           exact hnd'.1 (List.mem_map.2 ⟨w, hw, this⟩)
         obtain ⟨ext2, hn2, he2⟩ := ihU id d vs0 args rest s1 ks2 s2 hi1 hP hb
-          (fun g hg => hsub g (List.mem_cons_of_mem _ hg)) hnd'.2 hal' h2
+          (fun g hg => hsub g (List.mem_cons_of_mem _ hg)) hnd'.2 hal'
+          (fun w hw => hKid w (List.mem_cons_of_mem _ hw)) h2 hK
         refine ⟨ext1 ++ ext2, by rw [hn2, hn1, List.append_assoc], Ext.trans hn1 (he1.weaken ?_) (he2.weaken ?_)⟩
         · rintro nm ⟨f, hvf, hu, rfl⟩
           exact ⟨v, List.mem_cons_self .., f, hvf, hu, rfl⟩
         · rintro nm ⟨w, hw, g, hg, hgu, rfl⟩
           exact ⟨w, List.mem_cons_of_mem _ hw, g, hg, hgu, rfl⟩
 
-variable {P : Prog} {hash : Key → String}
+variable {P : Prog} {hash : Key → String} {K : Key → Prop}
 
-theorem as_zero_spec : AppendSpec P hash 0 := by
-  intro t s s' A _ _ _ h
+theorem as_zero_spec : AppendSpec P hash K 0 := by
+  intro t s s' A _ _ _ h _
   rw [as_zero] at h; cases h
 
 /-- `Vec<T>` / maps: reserve, `find_or_build` the element type, fill. -/
-theorem wrap_post {fuel : Nat} (ihF : FBSpec P hash fuel) {A : String → Prop} {t0 t : Ty}
+theorem wrap_post {fuel : Nat} (ihF : FBSpec P hash K fuel) {A : String → Prop} {t0 t : Ty}
     {s s' : BState} {mk : Nat → RegularType} (hmk : ∀ k, tyName (mk k) = none) (hi : Inv P hash s)
     (h : (match findOrBuild P hash fuel t (resv s) with
       | none => none
-      | some (k, s2) => setNode s.nodes.size (plain (mk k)) s2) = some ((), s')) :
+      | some (k, s2) => setNode s.nodes.size (plain (mk k)) s2) = some ((), s'))
+    (hK : ∀ k, Reg s' k → K k) :
     ∃ top rest, s'.nodes.toList = s.nodes.toList ++ top :: rest ∧ Ext P hash A s s' rest ∧
       TopOK P hash t0 top := by
   cases h1 : findOrBuild P hash fuel t (resv s) with
@@ -1167,27 +1243,27 @@ theorem wrap_post {fuel : Nat} (ihF : FBSpec P hash fuel) {A : String → Prop} 
   | some r1 =>
     obtain ⟨k, s2⟩ := r1
     simp only [h1] at h
-    obtain ⟨ext, hn, he⟩ := ihF _ _ _ _ hi.resv h1
+    obtain ⟨ext, hn, he⟩ := ihF _ _ _ _ hi.resv h1 (hK_of_setNode h hK)
     exact fill_post hn (he.weaken (fun _ h => h.elim)) h (topOK_unnamed (hmk k))
 
 theorem append_step (hW : StructWf P) {fuel : Nat}
-    (ihA : AppendSpec P hash fuel) (ihF : FBSpec P hash fuel) (ihI : FISpec P hash fuel)
-    (ihR : RFSpec P hash fuel) (ihU : UVSpec P hash fuel) : AppendSpec P hash (fuel + 1) := by
-  intro t s s' A hi hA hC h
+    (ihA : AppendSpec P hash K fuel) (ihF : FBSpec P hash K fuel) (ihI : FISpec P hash K fuel)
+    (ihR : RFSpec P hash K fuel) (ihU : UVSpec P hash K fuel) : AppendSpec P hash K (fuel + 1) := by
+  intro t s s' A hi hA hC h hK
   cases t with
   | ptr t =>
     rw [as_ptr] at h
-    have hC' : Compat P hash t A := fun n k0 o nm hk => hC (n + 1) k0 o nm (by rw [lk_ptr]; exact hk)
-    obtain ⟨top, rest, hn, he, htop⟩ := ihA t s s' A hi hA hC' h
+    have hC' : Compat P hash K t A := fun n k0 o nm hk => hC (n + 1) k0 o nm (by rw [lk_ptr]; exact hk)
+    obtain ⟨top, rest, hn, he, htop⟩ := ihA t s s' A hi hA hC' h hK
     refine ⟨top, rest, hn, he, ?_⟩
     intro nm hnm n k0 hk
     cases n with
     | zero => simp [lk_zero] at hk
     | succ n => rw [lk_ptr] at hk; exact htop nm hnm n k0 hk
   | param i => simp [appendSchema] at h
-  | vec t => rw [as_vec] at h; exact wrap_post ihF (fun _ => rfl) hi h
-  | hashMap t => rw [as_hashMap] at h; exact wrap_post ihF (fun _ => rfl) hi h
-  | btreeMap t => rw [as_btreeMap] at h; exact wrap_post ihF (fun _ => rfl) hi h
+  | vec t => rw [as_vec] at h; exact wrap_post ihF (fun _ => rfl) hi h hK
+  | hashMap t => rw [as_hashMap] at h; exact wrap_post ihF (fun _ => rfl) hi h hK
+  | btreeMap t => rw [as_btreeMap] at h; exact wrap_post ihF (fun _ => rfl) hi h hK
   | option t =>
     rw [as_option] at h
     simp only at h
@@ -1196,14 +1272,16 @@ theorem append_step (hW : StructWf P) {fuel : Nat}
     | some r1 =>
       obtain ⟨a, s1⟩ := r1
       simp only [h1] at h
-      obtain ⟨ext1, hn1, he1⟩ := ihF _ _ _ _ hi.resv h1
-      have hi1 : Inv P hash s1 := he1.inv hi.resv hn1 (fun _ h => h.elim)
       cases h2 : findOrBuild P hash fuel t s1 with
       | none => simp [h2] at h
       | some r2 =>
         obtain ⟨b, s2⟩ := r2
         simp only [h2] at h
-        obtain ⟨ext2, hn2, he2⟩ := ihF _ _ _ _ hi1 h2
+        have hK2 : ∀ k, Reg s2 k → K k := hK_of_setNode h hK
+        have hK1 : ∀ k, Reg s1 k → K k := fun k hk => hK2 k (reg_mono_fob h2 k hk)
+        obtain ⟨ext1, hn1, he1⟩ := ihF _ _ _ _ hi.resv h1 hK1
+        have hi1 : Inv P hash s1 := he1.inv hi.resv hn1 (fun _ h => h.elim)
+        obtain ⟨ext2, hn2, he2⟩ := ihF _ _ _ _ hi1 h2 hK2
         have hn : s2.nodes.toList = (resv s).nodes.toList ++ (ext1 ++ ext2) := by
           rw [hn2, hn1, List.append_assoc]
         exact fill_post hn ((Ext.trans hn1 he1 he2).weaken (fun _ h => h.elim)) h (topOK_unnamed rfl)
@@ -1243,9 +1321,9 @@ theorem append_step (hW : StructWf P) {fuel : Nat}
         simp only [hb] at h
         by_cases hd : isDirect f .newtypeStruct = true
         · rw [if_pos hd] at h
-          have hC' : Compat P hash (subst args (chosenTy f)) A := fun n k0 o nm hk =>
+          have hC' : Compat P hash K (subst args (chosenTy f)) A := fun n k0 o nm hk =>
             hC (n + 1) k0 o nm (by rw [lk_named]; simp only [hP, hb]; rw [if_pos hd]; exact hk)
-          obtain ⟨top, rest, hn, he, htop⟩ := ihA _ s s' A hi hA hC' h
+          obtain ⟨top, rest, hn, he, htop⟩ := ihA _ s s' A hi hA hC' h hK
           refine ⟨top, rest, hn, he, ?_⟩
           intro nm hnm n k0 hk
           cases n with
@@ -1277,7 +1355,7 @@ theorem append_step (hW : StructWf P) {fuel : Nat}
                   cases hp : peel f.ty with
                   | byteArray m => exact ⟨m, by simp⟩
                   | _ => simp [hp] at hd'
-              rcases ihI id d args f _ _ s k1 s1 hi hP hfl h1 with ⟨hnc, _⟩ | ⟨_, _, top, rest, hn, he, ht⟩
+              rcases ihI id d args f _ _ s k1 s1 hi hP hfl h1 hK with ⟨hnc, _⟩ | ⟨_, _, top, rest, hn, he, ht⟩
               · exact absurd hcr hnc
               · refine ⟨top, rest, hn, he.weaken (fun _ h => h.elim), ?_⟩
                 intro nm hnm n k0 hk
@@ -1321,12 +1399,14 @@ theorem append_step (hW : StructWf P) {fuel : Nat}
             have hal : ∀ f ∈ fields, f.attr.logical.isSome = true →
                 Allowed P hash (resv s) (subNm d hash k f) := by
               intro f hf hlog
-              exact (hA _ (hC nk k _ _ hlk (Named.sub hP hb hko hf hlog) rfl rfl)).resv
+              exact (hA _ (hC nk k _ _ hlk (Named.sub hP hb hko hf hlog) rfl rfl).1).resv
+            have hKk : ∀ f ∈ fields, f.attr.logical.isSome = true → K k := fun f hf hlog =>
+              (hC nk k _ _ hlk (Named.sub hP hb hko hf hlog) rfl rfl).2
             obtain ⟨ext, hn, he⟩ := ihR id d fields args k fields (resv s) fs s2 hi.resv hP hb
-              (fun _ h => h) (hW.fields_nodup id d fields hP hb) hko hal h1
+              (fun _ h => h) (hW.fields_nodup id d fields hP hb) hko hal hKk h1 (hK_of_setNode h hK)
             refine fill_post hn (he.weaken ?_) h ?_
             · rintro nm ⟨f, hf, hlog, rfl⟩
-              exact hC nk k _ _ hlk (Named.sub hP hb hko hf hlog) rfl rfl
+              exact (hC nk k _ _ hlk (Named.sub hP hb hko hf hlog) rfl rfl).1
             · intro nm hnm n k0 hk
               have := lk_det P hk hlk
               subst this
@@ -1341,7 +1421,8 @@ theorem append_step (hW : StructWf P) {fuel : Nat}
         | some r1 =>
           obtain ⟨ks, s2⟩ := r1
           simp only [h1] at h
-          have hAv : ∀ v ∈ variants, ∀ f, v.field = some f → safeField f = false → A (varNm d v) := by
+          have hAv : ∀ v ∈ variants, ∀ f, v.field = some f → safeField f = false →
+              A (varNm d v) ∧ K [.self id] := by
             intro v hv f hf hu
             have hnp : d.nparams = 0 := by
               refine Classical.byContradiction fun hn => ?_
@@ -1352,25 +1433,26 @@ theorem append_step (hW : StructWf P) {fuel : Nat}
             exact hC 1 _ _ _ hlk (Named.var hP hb hnp hv hf hu) rfl rfl
           obtain ⟨ext, hn, he⟩ := ihU id d variants args variants (resv s) ks s2 hi.resv hP hb
             (fun _ h => h) (hW.variants_nodup id d variants hP hb)
-            (fun v hv f hf hu => (hA _ (hAv v hv f hf hu)).resv) h1
+            (fun v hv f hf hu => (hA _ (hAv v hv f hf hu).1).resv)
+            (fun v hv f hf hu => (hAv v hv f hf hu).2) h1 (hK_of_setNode h hK)
           refine fill_post hn (he.weaken ?_) h (topOK_unnamed rfl)
           rintro nm ⟨v, hv, f, hf, hu, rfl⟩
-          exact hAv v hv f hf hu
+          exact (hAv v hv f hf hu).1
   | _ =>
     simp only [appendSchema] at h
     exact push_post hi h (topOK_unnamed rfl)
 
 
 /-- The five specifications hold for every fuel. -/
-theorem all_specs (hW : StructWf P) (hI : NameInj P hash) : ∀ fuel,
-    AppendSpec P hash fuel ∧ FBSpec P hash fuel ∧ FISpec P hash fuel ∧ RFSpec P hash fuel ∧
-      UVSpec P hash fuel := by
+theorem all_specs (hW : StructWf P) (hI : NameInjOn P hash K) : ∀ fuel,
+    AppendSpec P hash K fuel ∧ FBSpec P hash K fuel ∧ FISpec P hash K fuel ∧ RFSpec P hash K fuel ∧
+      UVSpec P hash K fuel := by
   intro fuel
   induction fuel with
   | zero =>
     refine ⟨as_zero_spec, ?_, ?_, rf_zero_spec, uv_zero_spec⟩
-    · intro t s idx s' _ h; rw [fob_zero] at h; cases h
-    · intro id d args f kind rtn s k s' _ _ _ h; rw [fi_zero] at h; cases h
+    · intro t s idx s' _ h _; rw [fob_zero] at h; cases h
+    · intro id d args f kind rtn s k s' _ _ _ h _; rw [fi_zero] at h; cases h
   | succ fuel ih =>
     obtain ⟨ihA, ihF, ihI, ihR, ihU⟩ := ih
     exact ⟨append_step hW ihA ihF ihI ihR ihU, fob_step hI ihA, fi_step hW ihA ihF,
@@ -1378,9 +1460,30 @@ theorem all_specs (hW : StructWf P) (hI : NameInj P hash) : ∀ fuel,
 
 theorem inv_empty : Inv P hash {} := ⟨by simp [dn], by simp [dn]⟩
 
-/-- Core statement: structural well-formedness + injective name assignment ⟹ one definition per
-    fullname. -/
-theorem definedNames_nodup (hW : StructWf P) (hI : NameInj P hash) {fuel : Nat} {root : Ty}
+/-- The lookup keys the build of `root` registers (`already_built_types` of the final builder
+    state), a finite computable list; `[]` if the build fails. -/
+def builtKeys (P : Prog) (hash : Key → String) (fuel : Nat) (root : Ty) : List Key :=
+  match findOrBuild P hash fuel root {} with
+  | some (_, s) => s.built.map (·.1)
+  | none => []
+
+theorem mem_keys_of_lookup {α β} [BEq α] [LawfulBEq α] {k : α} : ∀ {l : List (α × β)},
+    (l.lookup k).isSome = true → k ∈ l.map (·.1)
+  | [], h => by simp at h
+  | (a, b) :: l, h => by
+    simp only [List.lookup_cons] at h
+    cases hb : k == a with
+    | true =>
+      have : k = a := by simpa using hb
+      simp [this]
+    | false =>
+      simp only [hb] at h
+      exact List.mem_cons_of_mem _ (mem_keys_of_lookup h)
+
+/-- Core statement: structural well-formedness + a name assignment injective on the origins owned
+    by the keys the build registers ⟹ one definition per fullname. -/
+theorem definedNames_nodup_on (hW : StructWf P) {fuel : Nat} {root : Ty}
+    (hI : NameInjOn P hash (fun k => k ∈ builtKeys P hash fuel root))
     {S : SchemaMut} (h : schemaMut P hash fuel root = some S) : (definedNames S).Nodup := by
   unfold schemaMut at h
   cases h1 : findOrBuild P hash fuel root {} with
@@ -1389,8 +1492,18 @@ theorem definedNames_nodup (hW : StructWf P) (hI : NameInj P hash) {fuel : Nat} 
     obtain ⟨idx, s'⟩ := r
     simp only [h1, Option.map_some, Option.some.injEq] at h
     subst h
-    obtain ⟨ext, hn, he⟩ := (all_specs hW hI fuel).2.1 root {} idx s' inv_empty h1
+    have hK : ∀ k, Reg s' k → k ∈ builtKeys P hash fuel root := by
+      intro k hk
+      simp only [builtKeys, h1]
+      exact mem_keys_of_lookup hk
+    obtain ⟨ext, hn, he⟩ := (all_specs hW hI fuel).2.1 root {} idx s' inv_empty h1 hK
     exact (he.inv inv_empty hn (fun _ h => h.elim)).nodup
+
+/-- The same from injectivity on all origins (unmeetable by a hash with finitely many values as
+    soon as the program has a generic record; kept for reference). -/
+theorem definedNames_nodup (hW : StructWf P) (hI : NameInj P hash) {fuel : Nat} {root : Ty}
+    {S : SchemaMut} (h : schemaMut P hash fuel root = some S) : (definedNames S).Nodup :=
+  definedNames_nodup_on hW (hI.on _) h
 
 
 /-! ### From conditions on the program text to injectivity of the name assignment -/
@@ -1496,6 +1609,45 @@ structure TextWf (P : Prog) (hash : Key → String) : Prop where
   hash_inj : ∀ k k', hash k = hash k' → k = k'
   hash_nodot : ∀ k, '.' ∉ (hash k).toList
 
+/-- `k` is the lookup key of (an instantiation of) a generic record of `P`: the keys whose hash
+    enters a name (`recName`). -/
+def isGenericKey (P : Prog) (k : Key) : Bool :=
+  match keyId k with
+  | some id =>
+    match P[id]? with
+    | some d => isGenericRecord d
+    | none => false
+  | none => false
+
+/-- The keys of generic records among the keys the build of `root` registers. -/
+def genericRecordKeys (P : Prog) (hash : Key → String) (fuel : Nat) (root : Ty) : List Key :=
+  (builtKeys P hash fuel root).filter (isGenericKey P)
+
+/-- `TextWf` with the two conditions on `hash` restricted to a list of keys: every field is a
+    decidable statement for a concrete program, hash and list. -/
+structure TextWfOn (P : Prog) (hash : Key → String) (Ks : List Key) : Prop where
+  start_ok : ∀ (id : Nat) (d : Decl), P[id]? = some d → ∀ x ∈ staticNames d, okStart x = true
+  distinct : ∀ (id : Nat) (d : Decl), P[id]? = some d → ∀ (id' : Nat) (d' : Decl), P[id']? = some d' →
+    id ≠ id' → ∀ x ∈ staticNames d, x ∉ staticNames d'
+  no_u8_array : ∀ (id : Nat) (d : Decl), P[id]? = some d → ∀ x ∈ staticNames d,
+    ¬ "u8_array_".toList <+: x.toList
+  generic_prefix_free : ∀ (id : Nat) (d : Decl), P[id]? = some d → isGenericRecord d = true →
+    (∀ (id' : Nat) (d' : Decl), P[id']? = some d' → ∀ x ∈ staticNames d',
+      ¬ (typeName d ++ "_").toList <+: x.toList) ∧
+    ¬ (typeName d ++ "_").toList <+: "u8_array_".toList
+  hash_inj : ∀ k ∈ Ks, ∀ k' ∈ Ks, hash k = hash k' → k = k'
+  hash_nodot : ∀ k ∈ Ks, '.' ∉ (hash k).toList
+
+theorem TextWf.on {P : Prog} {hash : Key → String} (h : TextWf P hash) (Ks : List Key) :
+    TextWfOn P hash Ks :=
+  ⟨h.start_ok, h.distinct, h.no_u8_array, h.generic_prefix_free,
+    fun k _ k' _ => h.hash_inj k k', fun k _ => h.hash_nodot k⟩
+
+theorem TextWfOn.mono {P : Prog} {hash : Key → String} {Ks Ks' : List Key} (h : TextWfOn P hash Ks)
+    (hs : ∀ k ∈ Ks', k ∈ Ks) : TextWfOn P hash Ks' :=
+  ⟨h.start_ok, h.distinct, h.no_u8_array, h.generic_prefix_free,
+    fun k hk k' hk' => h.hash_inj k (hs k hk) k' (hs k' hk'), fun k hk => h.hash_nodot k (hs k hk)⟩
+
 /-- Classification of an origin's raw name. -/
 inductive Cls (P : Prog) (hash : Key → String) : Origin → String → Prop
   | arr (n : Nat) : Cls P hash (.arr n) ("u8_array_" ++ toString n)
@@ -1511,7 +1663,7 @@ inductive Cls (P : Prog) (hash : Key → String) : Origin → String → Prop
        (∃ f, o = .sub k f ∧ x = typeName d ++ "_" ++ hash k ++ "." ++ f)) →
       Cls P hash o x
 
-variable {P : Prog} {hash : Key → String}
+variable {P : Prog} {hash : Key → String} {Ks : List Key}
 
 theorem isGenericRecord_of {d : Decl} {fs : List Field} (hb : d.body = .record fs) (hn : d.nparams ≠ 0) :
     isGenericRecord d = true := by
@@ -1550,7 +1702,7 @@ theorem named_cls {o : Origin} {nm : String} (h : Named P hash o nm) :
     simp only [staticNames, hb, List.mem_map, List.mem_filter]
     exact ⟨v, ⟨hv, by simp [hf, hu]⟩, rfl⟩
 
-theorem cls_okStart (hT : TextWf P hash) {o : Origin} {x : String} (h : Cls P hash o x) :
+theorem cls_okStart (hT : TextWfOn P hash Ks) {o : Origin} {x : String} (h : Cls P hash o x) :
     okStart x = true := by
   cases h with
   | arr n => exact okStart_append _ (by decide)
@@ -1561,7 +1713,7 @@ theorem cls_okStart (hT : TextWf P hash) {o : Origin} {x : String} (h : Cls P ha
     · exact okStart_append _ (okStart_append _ h0)
     · exact okStart_append _ (okStart_append _ (okStart_append _ (okStart_append _ h0)))
 
-variable {P : Prog} {hash : Key → String}
+variable {P : Prog} {hash : Key → String} {Ks : List Key}
 
 theorem str_append_left_cancel {a b c : String} (h : a ++ b = a ++ c) : b = c := by
   have := congrArg String.toList h
@@ -1580,14 +1732,14 @@ theorem ownedName_variant (d : Decl) : ∃ pre : String, ∀ v,
   | none => exact ⟨d.modulePath ++ "." ++ d.ident ++ ".", fun v => by simp [String.append_assoc]⟩
   | some ns => exact ⟨(if ns = "" then "" else ns ++ ".") ++ d.ident ++ ".", fun v => by simp [String.append_assoc]⟩
 
-theorem gen_vs_stat (hT : TextWf P hash) {id id' : Nat} {d d' : Decl} (hP : P[id]? = some d)
+theorem gen_vs_stat (hT : TextWfOn P hash Ks) {id id' : Nat} {d d' : Decl} (hP : P[id]? = some d)
     (hg : isGenericRecord d = true) (hP' : P[id']? = some d') {x b : String} (hx : x ∈ staticNames d')
     (h : x = typeName d ++ ("_" ++ b)) : False := by
   rw [← String.append_assoc] at h
   refine (hT.generic_prefix_free id d hP hg).1 id' d' hP' x hx ⟨b.toList, ?_⟩
   rw [h]; simp [String.toList_append]
 
-theorem gen_vs_arr (hT : TextWf P hash) {id : Nat} {d : Decl} (hP : P[id]? = some d)
+theorem gen_vs_arr (hT : TextWfOn P hash Ks) {id : Nat} {d : Decl} (hP : P[id]? = some d)
     (hg : isGenericRecord d = true) {a b : String} (h : "u8_array_" ++ a = typeName d ++ ("_" ++ b)) :
     False := by
   rw [← String.append_assoc] at h
@@ -1602,7 +1754,7 @@ theorem gen_vs_arr (hT : TextWf P hash) {id : Nat} {d : Decl} (hP : P[id]? = som
     · exact hT.no_u8_array id d hP _ (typeName_static_of_generic hg) hp
   · exact (hT.generic_prefix_free id d hP hg).2 ⟨bs, by simp only [String.toList_append]; exact h1.symm⟩
 
-theorem gen_vs_gen (hT : TextWf P hash) {id id' : Nat} {d d' : Decl} (hP : P[id]? = some d)
+theorem gen_vs_gen (hT : TextWfOn P hash Ks) {id id' : Nat} {d d' : Decl} (hP : P[id]? = some d)
     (hg : isGenericRecord d = true) (hP' : P[id']? = some d') (hg' : isGenericRecord d' = true)
     (hne : id ≠ id') {b b' : String} (h : typeName d ++ ("_" ++ b) = typeName d' ++ ("_" ++ b')) : False := by
   rw [← String.append_assoc, ← String.append_assoc] at h
@@ -1625,8 +1777,10 @@ theorem gen_vs_gen (hT : TextWf P hash) {id id' : Nat} {d d' : Decl} (hP : P[id]
   · exact key hP hg hP' hg' hne as h1
   · exact key hP' hg' hP hg (Ne.symm hne) bs h1
 
-theorem cls_inj (hT : TextWf P hash) {o o' : Origin} {x x' : String} (h : Cls P hash o x)
-    (h' : Cls P hash o' x') (hx : x = x') : o = o' := by
+theorem cls_inj (hT : TextWfOn P hash Ks) {o o' : Origin} {x x' : String} (h : Cls P hash o x)
+    (h' : Cls P hash o' x') (hx : x = x')
+    (hKo : isGenericKey P o.owner = true → o.owner ∈ Ks)
+    (hKo' : isGenericKey P o'.owner = true → o'.owner ∈ Ks) : o = o' := by
   cases h with
   | arr n =>
     cases h' with
@@ -1683,12 +1837,18 @@ theorem cls_inj (hT : TextWf P hash) {o o' : Origin} {x x' : String} (h : Cls P 
       · subst hid
         rw [hP] at hP'
         cases hP'
-        have hnd := hT.hash_nodot k
-        have hnd' := hT.hash_nodot k'
+        have hgk : isGenericKey P k = true := by simp [isGenericKey, hk, hP, hg]
+        have hgk' : isGenericKey P k' = true := by simp [isGenericKey, hk', hP, hg]
+        have hmem : k ∈ Ks := by
+          rcases hc with ⟨rfl, _⟩ | ⟨f, rfl, _⟩ <;> exact hKo hgk
+        have hmem' : k' ∈ Ks := by
+          rcases hc' with ⟨rfl, _⟩ | ⟨f, rfl, _⟩ <;> exact hKo' hgk'
+        have hnd := hT.hash_nodot k hmem
+        have hnd' := hT.hash_nodot k' hmem'
         rcases hc with ⟨rfl, rfl⟩ | ⟨f, rfl, rfl⟩ <;> rcases hc' with ⟨rfl, rfl⟩ | ⟨f', rfl, rfl⟩ <;>
           simp only [String.append_assoc] at hx <;>
           have h1 := str_append_left_cancel (str_append_left_cancel hx)
-        · rw [hT.hash_inj _ _ h1]
+        · rw [hT.hash_inj _ hmem _ hmem' h1]
         · rw [h1] at hnd
           simp [String.toList_append] at hnd
         · rw [← h1] at hnd'
@@ -1698,7 +1858,7 @@ theorem cls_inj (hT : TextWf P hash) {o o' : Origin} {x x' : String} (h : Cls P 
           have h2 : (hash k).toList ++ '.' :: f.toList = (hash k').toList ++ '.' :: f'.toList := by
             simpa using this
           obtain ⟨h3, h4⟩ := split_first hnd hnd' h2
-          rw [hT.hash_inj _ _ (String.toList_inj.1 h3), String.toList_inj.1 h4]
+          rw [hT.hash_inj _ hmem _ hmem' (String.toList_inj.1 h3), String.toList_inj.1 h4]
       · exfalso
         have e1 : ∃ b, x = typeName d ++ ("_" ++ b) := by
           rcases hc with ⟨_, rfl⟩ | ⟨f, _, rfl⟩
@@ -1712,13 +1872,23 @@ theorem cls_inj (hT : TextWf P hash) {o o' : Origin} {x x' : String} (h : Cls P 
         obtain ⟨b', rfl⟩ := e2
         exact gen_vs_gen hT hP hg hP' hg' hid hx
 
-/-- The conditions on the program text make the name assignment injective. -/
-theorem nameInj_of_textWf (hT : TextWf P hash) : NameInj P hash := by
-  intro o o' nm h h'
+/-- The conditions on the program text, with `hash` injective and dot-free on a list `Ks` of keys,
+    make the name assignment injective on the origins owned by keys in `K`, provided `Ks` contains
+    the generic-record keys of `K` (the only keys whose hash enters a name). -/
+theorem nameInjOn_of_textWfOn {K : Key → Prop} (hT : TextWfOn P hash Ks)
+    (hKs : ∀ k, K k → isGenericKey P k = true → k ∈ Ks) : NameInjOn P hash K := by
+  intro o o' nm h h' hk hk'
   obtain ⟨x, rfl, hc⟩ := named_cls h
   obtain ⟨x', hx', hc'⟩ := named_cls h'
   rw [fqOf_eq (cls_okStart hT hc), fqOf_eq (cls_okStart hT hc')] at hx'
-  exact cls_inj hT hc hc' hx'
+  exact cls_inj hT hc hc' hx' (hKs _ hk) (hKs _ hk')
+
+/-- The conditions on the program text make the name assignment injective (global form:
+    `TextWf.hash_inj` is about all keys). -/
+theorem nameInj_of_textWf (hT : TextWf P hash) : NameInj P hash := by
+  intro o o' nm h h'
+  exact nameInjOn_of_textWfOn (K := fun k => k ∈ [o.owner, o'.owner]) (hT.on [o.owner, o'.owner])
+    (fun _ hk _ => hk) o o' nm h h' (by simp) (by simp)
 
 
 /-! ### Lookup keys of built-in types: injective up to the crate's forwarding -/
